@@ -78,6 +78,9 @@ func runCase(line string) string {
 	case "R":
 		res, _ := runR(f)
 		return id + " " + res
+	case "PM":
+		res, _ := hx.Guard(pDeadline, func() string { return runPM(f) })
+		return id + " " + res
 	case "PK", "PS", "PR", "PH":
 		res, _ := hx.Guard(pDeadline, func() string { return runP(f) })
 		return id + " " + res
@@ -189,6 +192,10 @@ func main() {
 			}
 		}
 		o.Close()
+		return
+	}
+	if len(os.Args) >= 3 && os.Args[1] == "pmcheck" {
+		pmCheck(os.Args[2])
 		return
 	}
 	if len(os.Args) >= 3 && os.Args[1] == "dbg" {
